@@ -771,8 +771,28 @@ static void default_init_probe(Out& impl, F&& observe)
     p->~T();
 }
 
+[[gnu::noinline]] static auto canary_load_double(void const* p) -> double { return *static_cast<double const*>(p); }
+
 bool vh::run_case(std::string const& op, Toks& in, Out& impl, Out& ref)
 {
+    // the alignment leg (ops align / asdef) lives in align.cpp (variants al, alo2, alsan)
+    if (op == "align" || op == "asdef") { impl.tok("skip"); return true; }
+    if (op == "san_canary") {
+        // the sanitizer build must abort on a deliberate misaligned load / constructor call / heap overflow (`crash 6`):
+        // clean sanitizer runs of the batteries mean something only then; every other build skips the case
+        auto what = in.str();
+#if defined(C02_SAN) && !defined(C02_VG)
+        alignas(16) static unsigned char bytes[32] = {};
+        if (what == "align") { impl.tok("ok").tok("SANITIZER-BLIND").num(static_cast<i64>(canary_load_double(bytes + 1))); return true; }
+        if (what == "construct") { auto* p = ::new (static_cast<void*>(bytes + 1)) NonTrivial(3); impl.tok("ok").tok("SANITIZER-BLIND").num(p->v); return true; }
+        if (what == "heap") { auto* h = static_cast<char volatile*>(std::malloc(8)); h[8] = 1; impl.tok("ok").tok("SANITIZER-BLIND").num(h[8]); return true; }
+        return false;
+#else
+        (void)what;
+        impl.tok("skip");
+        return true;
+#endif
+    }
     if (op == "noalloc") {
         auto which = static_cast<int>(in.num());
         auto seed  = static_cast<int>(in.num());
